@@ -44,6 +44,7 @@ type Step struct {
 	Quads   []QuadSpec    `json:"quads,omitempty"`
 	F       []float32     `json:"f,omitempty"`
 	NoRID   bool          `json:"norid,omitempty"`
+	Off     *Offence      `json:"off,omitempty"`
 }
 
 type QuadSpec struct {
